@@ -251,7 +251,8 @@ func main() {
 				files = []aspgen.File{{Name: "p", Src: it.raw}}
 				it.pysrc = it.raw
 			} else {
-				it.loose = hasBigInt(it.build) || hasBigInt(it.defs) || strings.Contains(aspgen.Source(it.build), "\" % ")
+				it.loose = hasBigInt(it.build) || hasBigInt(it.defs) || strings.Contains(aspgen.Source(it.build), "\" % ") ||
+					strings.Contains(aspgen.Source(it.build), "//") || strings.Contains(aspgen.Source(it.defs), "//")
 				if it.defs != nil {
 					files = append(files, aspgen.NewFile("//defs:d", it.defs, true))
 				}
